@@ -721,6 +721,65 @@ def _confirm_crashes(pid, modname, crumbs_dir):
     return out
 
 
+@contextlib.contextmanager
+def transient_io_fault(nth=1):
+    """Inside the block the nth HDF5 file that is opened (h5py.File, which astropy's table reader and the grid
+    readers use) fails once with OSError(EMFILE), as a process out of file descriptors sees it. Yields a dict whose
+    'fired' entry tells whether a file was opened at all. The code under test may let the error out; what matters is
+    that a retry on the same object afterwards behaves like a fresh object."""
+    import h5py
+
+    state = {"count": 0, "fired": False}
+    orig = h5py.File.__init__
+
+    def failing(self, *a, **k):
+        state["count"] += 1
+        if state["count"] == nth and not state["fired"]:
+            state["fired"] = True
+            raise OSError(24, "Too many open files (injected)")
+        return orig(self, *a, **k)
+
+    h5py.File.__init__ = failing
+    try:
+        yield state
+    finally:
+        h5py.File.__init__ = orig
+
+
+EDIT_LEVELS = ["leaf", "submodel", "section", "holder"]
+
+
+def live_edit(holder, path, values, level):
+    """Edits the configuration that the live module object `holder` reads (holder.config.<path...>.<leaf> = value for
+    every (leaf, value) of `values`) the way a user may do it:
+      leaf     - assign the leaf fields;
+      submodel - replace the sub-model (path[-1]) by an edited copy;
+      section  - replace the top-level section (path[0]) by a copy holding the edited sub-model;
+      holder   - give the object a whole new configuration object (holder.config = edited deep copy).
+    Afterwards holder.config.<path>.<leaf> == value at every level; a module object that reads its configuration when
+    called (all of nuspacesim's do on the pinned tree) must behave like a fresh object of the edited configuration."""
+    cfg = holder.config
+    if level == "holder":
+        cfg = cfg.model_copy(deep=True)
+        holder.config = cfg
+        level = "leaf"
+    chain = [cfg]
+    for name in path:
+        chain.append(getattr(chain[-1], name))
+    if level == "leaf" or len(path) == 0:
+        for k, v in values.items():
+            setattr(chain[-1], k, v)
+        return
+    new = chain[-1].model_copy(update=dict(values))
+    if level == "submodel" or len(path) == 1:
+        setattr(chain[-2], path[-1], new)
+        return
+    # section: rebuild copies from the sub-model up to the top-level section, then replace that section
+    for depth in range(len(path) - 1, 0, -1):
+        new = chain[depth].model_copy(update={path[depth]: new})
+    setattr(cfg, path[0], new)
+
+
 def validate_evidence(ev: dict) -> List[str]:
     """Minimal built-in validation of the evidence record against the schema's rules."""
     problems = []
